@@ -7,6 +7,7 @@ package main
 import (
 	"bytes"
 	"context"
+	"encoding/json"
 	"fmt"
 	"os"
 	"path/filepath"
@@ -411,12 +412,17 @@ func TestVfC09Stress(t *testing.T) {
 		t.Fatalf("harness: %v", err)
 	}
 	run.Require("class:A", "class:B", "overlap")
+	lastInput := filepath.Join(os.Getenv("VERIF_TMP"), "last-input.json")
+	os.MkdirAll(filepath.Dir(lastInput), 0o755)
 	for _, p := range vfh.ReplayFiles("C09", "stress") {
 		var c vfC09Case
 		if err := vfh.LoadCaseFile(p, &c); err != nil {
 			t.Fatalf("regress %s: %v", p, err)
 		}
 		run.SetLast(&c)
+		if b, err := json.Marshal(&c); err == nil {
+			os.WriteFile(lastInput, b, 0o644)
+		}
 		for i := 0; i < 5; i++ {
 			var st vfC09Stats
 			if err := vfC09eval(w, &c, &st); err != nil {
@@ -428,6 +434,9 @@ func TestVfC09Stress(t *testing.T) {
 	rapid.Check(t, func(rt *rapid.T) {
 		c := vfC09gen(rt, 60)
 		run.SetLast(c)
+		if b, err := json.Marshal(c); err == nil {
+			os.WriteFile(lastInput, b, 0o644) // a fatal runtime error (e.g. concurrent map access) is attributed to this program
+		}
 		var st vfC09Stats
 		err := vfC09eval(w, c, &st)
 		cls := []string{"class:A"}
